@@ -515,3 +515,138 @@ def utc_add(unit):
 
 JOBS["C29"] += [instant_add(u) for u in ("days", "hours", "minutes", "seconds")]
 JOBS["C29"] += [utc_add(u) for u in ("days", "hours", "minutes", "seconds")]
+
+
+# =====================================================================================================
+# C27: Decimal / PreciseDecimal text parsing (string model: concrete length, symbolic ASCII bytes)
+# =====================================================================================================
+from mirsmt.values import StrSymV  # noqa: E402
+
+
+def _numeral_shapes(bs, scale):
+    """All ways a byte string of this length can be `[+-]? digits+ ( '.' digits{1,scale} )?`:
+    -> [(condition, exact value in subunits)]"""
+    n = len(bs)
+    shapes = []
+
+    def dig(b):
+        return z3.And(b >= 48, b <= 57)
+
+    def val(ds):
+        t = z3.IntVal(0)
+        for d in ds:
+            t = t * 10 + (d - 48)
+        return t
+    for has_sign in (0, 1):
+        if has_sign and n == 0:
+            continue
+        body = bs[has_sign:]
+        m = len(body)
+        for dot in [None] + list(range(m)):
+            if dot is None:
+                ip, fp = body, []
+                if not ip:
+                    continue
+                cond = [dig(b) for b in ip]
+            else:
+                ip, fp = body[:dot], body[dot + 1:]
+                if not ip or not fp or len(fp) > scale:
+                    continue
+                cond = [dig(b) for b in ip] + [body[dot] == 46] + [dig(b) for b in fp]
+            mag = val(ip) * 10 ** scale + (val(fp) * 10 ** (scale - len(fp)) if fp else 0)
+            if has_sign:
+                shapes.append((z3.And(cond + [bs[0] == 43]), mag))
+                shapes.append((z3.And(cond + [bs[0] == 45]), -mag))
+            else:
+                shapes.append((z3.And(cond), mag))
+    return shapes
+
+
+class ParseDecimal(Job):
+    case_keys = ("len",)
+    crate = "radix-common"
+    query_timeout_s = 120
+
+    def __init__(self, precise, lens_quick, lens_thorough):
+        self.precise = precise
+        self.scale = 36 if precise else 18
+        self.name = "c27m::%s_from_str" % ("precise_decimal" if precise else "decimal")
+        self.what = ("%s::from_str on every ASCII string of the enumerated lengths: accepted exactly when the text is "
+                     "an optionally signed decimal numeral `[+-]?digits+(.digits+)?` with at most %d fractional digits, "
+                     "and then the value is the exact one; never panics" % (
+                         "PreciseDecimal" if precise else "Decimal", self.scale))
+        self.lens_quick, self.lens_thorough = lens_quick, lens_thorough
+        self.cover_labels = ["accepted", "rejected", "negative with fraction", "explicit plus"]
+        self.max_unroll = 80
+
+    def cases(self, tier):
+        return [{"len": n} for n in (self.lens_thorough if tier == "thorough" else self.lens_quick)]
+
+    def locate(self, prog):
+        return find_function(prog, PDEC if self.precise else DEC, "from_str", param_types=["&str"])
+
+    def inputs(self):
+        n = self.case["len"]
+        inp, pre = {}, []
+        for i in range(n):
+            b = z3.Int("b%d" % i)
+            inp["b%d" % i] = b
+            pre += [b >= 0, b <= 127]
+        return inp, pre
+
+    def _bytes(self, inp):
+        return [lit(inp["b%d" % i]) for i in range(self.case["len"])]
+
+    def args(self, inp):
+        return [StrSymV(self._bytes(inp))]
+
+    def extract(self, v):
+        return res_extract(v)
+
+    def native(self, nat, vals):
+        hx = "".join("%02x" % int(vals["b%d" % i]) for i in range(self.case["len"]))
+        t = nat.call("pdec_from_str" if self.precise else "dec_from_str", hx).split()
+        if t[0] == "panic":
+            return {"panic": True, "msg": " ".join(t[1:])}
+        if t[0] == "err":
+            return {"panic": False, "some": False, "val": 0}
+        return {"panic": False, "some": True, "val": int(t[1])}
+
+    def post(self, inp, res):
+        bs = self._bytes(inp)
+        shapes = _numeral_shapes(bs, self.scale)
+        ok, v = lit(res["some"]), lit(res["val"])
+        is_numeral = z3.Or([c for c, _ in shapes]) if shapes else z3.BoolVal(False)
+        posts = [("accepted exactly when the text is an optionally signed decimal numeral", ok == is_numeral)]
+        if shapes:
+            posts.append(("the value is the exact value of the numeral",
+                          z3.Implies(ok, z3.And([z3.Implies(c, v == m) for c, m in shapes]))))
+        return posts
+
+    def covers(self, inp, res):
+        bs = self._bytes(inp)
+        return [("accepted", res["some"]), ("rejected", z3.Not(res["some"])),
+                ("negative with fraction", z3.And(res["some"], res["val"] < 0, res["val"] % (10 ** self.scale) != 0)),
+                ("explicit plus", z3.And(res["some"], bs[0] == 43) if bs else z3.BoolVal(False))]
+
+    def vectors(self, rng):
+        texts = ["", "0", "7", "-", "+", ".", "12", "-5", "+5", "1.5", "-0.5", "+0.25", "1.", ".5", "1.-5", "1.+5", "-1.-5",
+                 "1..2", "1.2.3", "a", "1a", "0x1", " 1", "1 ", "-0", "-0.0", "00.10", "1e3", "1_0", "12.34", "-12.34",
+                 "9.999", "--1", "+-1", "1.5-", "123456", "-.5", "+.5", "0.000001", "1,5", "\x001", "1.\x7f"]
+        out = []
+        for t in texts:
+            d = {"len": len(t)}
+            for i, ch in enumerate(t):
+                d["b%d" % i] = ord(ch)
+            out.append(d)
+        for _ in range(20):
+            n = rng.randrange(1, 8)
+            d = {"len": n}
+            for i in range(n):
+                d["b%d" % i] = rng.choice([43, 45, 46, 48, 49, 53, 57, 48 + rng.randrange(10), rng.randrange(128)])
+            out.append(d)
+        return out
+
+
+JOBS["C27"] = [ParseDecimal(False, (0, 1, 2, 3, 4, 5), (0, 1, 2, 3, 4, 5, 6, 7)),
+               ParseDecimal(True, (0, 1, 2, 3, 4), (0, 1, 2, 3, 4, 5, 6))]
